@@ -53,6 +53,30 @@ type VMSpec struct {
 	Spin    int     `json:"spin,omitempty"`    // busy loop before the first evaluation
 	Yields  []int   `json:"yields,omitempty"`  // Gosched before these step indices
 	Steps   []Step  `json:"steps"`
+	// FromTemplate: the host stamps its VMs out of one configured VM that has already rolled a side-less die: this VM's
+	// Config is a copy of that VM's Config (handed over with SetConfig), with its own switches written over it. A copied
+	// configuration is plain settings: the VMs still share no values.
+	FromTemplate bool `json:"fromTemplate,omitempty"`
+}
+
+var (
+	templateMu   sync.Mutex
+	templateCfgs = map[string]ds.RollConfig{}
+)
+
+// templateConfig returns the Config of the process-wide template VM for a default-sides text (built and used once).
+func templateConfig(defSide string) ds.RollConfig {
+	templateMu.Lock()
+	defer templateMu.Unlock()
+	if c, ok := templateCfgs[defSide]; ok {
+		return c
+	}
+	vm := ds.NewVM()
+	vm.Config.DefaultDiceSideExpr = defSide
+	vm.Config.OpCountLimit = 30000
+	_ = rt.Guard(func() { _ = vm.Run("d") })
+	templateCfgs[defSide] = vm.Config
+	return vm.Config
 }
 
 type Plan struct {
@@ -114,6 +138,11 @@ func (l *hookLog) String() string { return fmt.Sprintf("%d:%016x", l.n, l.h) }
 
 func newVM(spec VMSpec, log *hookLog) *ds.Context {
 	vm := spec.Cfg.NewVM()
+	if spec.FromTemplate && spec.Cfg.DefSide != "" {
+		c := templateConfig(spec.Cfg.DefSide)
+		vm.SetConfig(&c)
+		spec.Cfg.Apply(vm)
+	}
 	if spec.Hooks {
 		tag := spec.Tag
 		_ = vm.RegCustomDice(`E(\d+)`, func(ctx *ds.Context, groups []string, _ any) (*ds.VMValue, string, error) {
@@ -908,6 +937,7 @@ func drawContention(t *rapid.T) Plan {
 			spec.Cfg.DefSide = defText
 			spec.Cfg.NoBitwise = rapid.Bool().Draw(t, "contendNoBitwise")
 			spec.Cfg.NoNDice = false
+			spec.FromTemplate = rapid.Bool().Draw(t, "contendFromTemplate")
 			step = diceStep(spec.Cfg, int64(1+i%3), 0, int64(spec.Tag), true)
 		}
 		for j := 0; j < rounds; j++ {
@@ -933,6 +963,9 @@ func drawPlan(t *rapid.T, s *rt.Section, maxSteps int) Plan {
 		seeded := rapid.IntRange(0, 9).Draw(t, "seeded") < 6 && i != forceUnseeded
 		spec := VMSpec{Cfg: drawCfg(t, seeded), Tag: i + 1, Hooks: rapid.IntRange(0, 2).Draw(t, "hooks") == 0,
 			SeedObs: rapid.Bool().Draw(t, "seedObs"), Spin: rapid.IntRange(0, 40).Draw(t, "spin")}
+		if spec.Cfg.DefSide != "" {
+			spec.FromTemplate = rapid.Bool().Draw(t, "fromTemplate")
+		}
 		if !seeded && rapid.IntRange(0, 3).Draw(t, "unseededRandomMode") != 0 {
 			spec.Cfg.Mode = "" // an unseeded VM under min/max mode never draws from the process-wide generator
 		}
